@@ -168,6 +168,11 @@ def run(chk):
     cm = any(x["k"] == "mcall" and x.get("cn") == "set_inline_comment" and "comment" in be.text(x["args"][0]) for x in be.ex.values() if x.get("args"))
     chk.ob(R2, "BaseBuilder::_emit|comment", cm, loc="%s:%d" % (UNIT, be.line), detail="the inline comment is not stored in the node")
 
+    # ---------------------------------------------------------------- C08.c argument round trip of data nodes
+    from lib import roundtrip
+    fnodes = chk.facts(UNIT, funcs=r"asmjit::(AlignNode|EmbedLabelNode|EmbedLabelDeltaNode|LabelNode|CommentNode|SectionNode|EmbedDataNode|ConstPoolNode)::[A-Za-z_0-9~]+$")
+    roundtrip.run(chk, fns, closure, fnodes)
+
     # ---------------------------------------------------------------- C08.d list editing siblings
     R3 = "R-LIST-EDIT-SIBLINGS"
     chk.rule(R3, "add_node / add_after / add_before / remove_node / remove_nodes agree: each links both directions or the list ends, marks "
